@@ -7,7 +7,7 @@ from .common import call
 
 PROP = "C12"
 LEVEL = "exploration"
-CASES = {"quick": 3000, "thorough": 150000}
+CASES = {"quick": 3000, "thorough": 1500000}
 SHARDS = {"quick": 8, "thorough": 16}
 ANCHORS = [
     "reconciliation.py:remap_uri_prefixes", "reconciliation.py:rewire",
